@@ -7,7 +7,7 @@ from typing import Dict, List, Optional, Set, Tuple
 
 from ..model import AnchorError, Program, dotted, last_attr, norm, parent, walk_no_nested
 from ..report import Check
-from .common import calls_in, guards_of, params_of
+from .common import calls_in, guards_of, need_locals, params_of
 
 SUBSCOPE_CALLS = {"subscope", "suppressing_subscope", "_subscope_and_maybe_supress"}
 LOOP_SCOPE = "loop_scope"
@@ -240,6 +240,7 @@ def r09_c(prog: Program, chk: Check) -> None:
             f"{mname} must unconditionally record {marker} in the current scope",
         )
     gc = prog.func("stacked_scopes", "FunctionScope.get_combined_scope")
+    need_locals(gc, "scopes", "varname", "new_scopes")
     loop = [n for n in walk_no_nested(gc) if isinstance(n, ast.For) and norm(n.iter) == "scopes"]
     ok_loop = ok_scope = False
     if loop:
@@ -260,6 +261,7 @@ def r09_c(prog: Program, chk: Check) -> None:
 def r09_d(prog: Program, chk: Check) -> None:
     chk.rule("R09.d", "undefined / possibly undefined reporting path in resolve_name", floor=3)
     fn = prog.func("name_check_visitor", "NameCheckVisitor.resolve_name")
+    need_locals(fn, "value", "subval", "subvals")
     undefined = possibly = False
     for n in walk_no_nested(fn):
         if isinstance(n, ast.If) and norm(n.test) == "value is UNINITIALIZED_VALUE":
